@@ -5,6 +5,8 @@ CONSTANTS
     MaxNum = 1
     MaxCid = 1
     MaxSteps = 2
+    Mode = "layouts"
+    InstanceMemory = FALSE
     FindPrefersDirectChild = FALSE
     ExcuseDecoy = TRUE
 SPECIFICATION Spec
